@@ -28,7 +28,15 @@
 #ifndef GROUP
 #define GROUP 0         // 0: insert/erase family, 1: copy/assign/swap/clear/bulk_load/compare
 #endif
-#define MAXE 28
+#ifndef MAXE
+#if PRE == 3
+#define MAXE (4 * LEAF + 6 + OPS + 1)
+#elif PRE == 5
+#define MAXE (2 * LEAF + OPS + 3)
+#else
+#define MAXE (12 + OPS)
+#endif
+#endif
 #define KEYS 32
 enum { MULTI = (CONT == 1 || CONT == 3), ISMAP = (CONT >= 2) };
 
@@ -143,8 +151,15 @@ static void compare_all(Tree& t, const Model& m, uint8_t probe)
     CHECK((f == t.end()) == (cnt == 0), "find() returns end() exactly for absent keys");
     if (cnt > 0 && f != t.end()) { CHECK(IT_KEY(f) == probe, "find() returns an entry with the key"); }
     Tree::iterator lb = t.lower_bound(probe), ub = t.upper_bound(probe);
-    CHECK(rank_of(t, lb) == lo, "lower_bound() position equals the model's");
-    CHECK(rank_of(t, ub) == up, "upper_bound() position equals the model's");
+    // positions are pinned down locally: the element at the position and its predecessor (no O(n) walk)
+    CHECK((lb == t.end()) == (lo == m.n), "lower_bound() is end() exactly when no entry is >= key");
+    if (lb != t.end() && lo < m.n) CHECK(!KLT(IT_KEY(lb), probe) && IT_KEY(lb) == m.k[lo], "lower_bound() points to the first entry not less than key");
+    if (lb != t.begin() && lo > 0) { Tree::iterator p_ = lb; --p_; CHECK(KLT(IT_KEY(p_), probe) && IT_KEY(p_) == m.k[lo - 1], "the entry before lower_bound() is less than key"); }
+    CHECK((lb == t.begin()) == (lo == 0), "lower_bound() is begin() exactly when no entry is less than key");
+    CHECK((ub == t.end()) == (up == m.n), "upper_bound() is end() exactly when no entry is > key");
+    if (ub != t.end() && up < m.n) CHECK(KLT(probe, IT_KEY(ub)) && IT_KEY(ub) == m.k[up], "upper_bound() points to the first entry greater than key");
+    if (ub != t.begin() && up > 0) { Tree::iterator p_ = ub; --p_; CHECK(!KLT(probe, IT_KEY(p_)) && IT_KEY(p_) == m.k[up - 1], "the entry before upper_bound() is not greater than key"); }
+    CHECK((ub == t.begin()) == (up == 0), "upper_bound() is begin() exactly when no entry is <= key");
     std::pair<Tree::iterator, Tree::iterator> er = t.equal_range(probe);
     CHECK(er.first == lb && er.second == ub, "equal_range() equals [lower_bound, upper_bound)");
 }
